@@ -69,8 +69,64 @@ def gen_case(rng, i, tier, family=None):
                            + [{"kind": "heap", "threshold": rng.choice(["1/8", "1/16", "1/64", "3/1024", "1/4096"])}]),
         "filter": None,
         "merges": [],
+        "fseed": rng.randrange(1 << 30) if rng.random() < 0.5 else None,
+        "tier": tier,
     }
+    fit_size(case, tier)
     return case
+
+
+def lang_size(b, limit):
+    """size of the language of the grammar described by b (by the harness' own expansion), or
+    None (constructor refuses / dangling) or limit + 1"""
+    g = build_grammar(dict(b))
+    if g is None:
+        return None
+    try:
+        if hasattr(g, "starts"):
+            if not g.starts or any(S not in g.rules for S in g.starts):
+                return 0
+            one = {S: {P: {tuple(v): 1 for v in alts} for P, alts in rs.items()} for S, rs in g.rules.items()}
+            return len(expand_u(g, one, {S: 1 for S in g.starts}, limit))
+        if g.start not in g.rules:
+            return 0
+        return len(expand_det(g, {S: {P: 1 for P in rs} for S, rs in g.rules.items()}, limit))
+    except TooLarge:
+        return limit + 1
+    except (Dangling, RecursionError):
+        return None
+
+
+def fit_size(case, tier):
+    """move the depth / size bound so that the language is neither huge nor tiny"""
+    b = case["build"]
+    fld = "max_size" if b["kind"] == "ttcfg-size" else "max_depth"
+    limit = MAX_LANG[tier]
+    for _ in range(4):
+        n = lang_size(b, limit)
+        if n is None:
+            return
+        if n > limit and b[fld] > 1:
+            b[fld] -= 1
+        elif n < 8 and b[fld] < (7 if fld == "max_size" else 4):
+            b[fld] += 1
+            m = lang_size(b, limit)
+            if m is None or m > limit:
+                b[fld] -= 1
+                return
+        else:
+            return
+
+
+def gen_filter(rng):
+    r = rng.random()
+    if r < 0.4:
+        return {"kind": "reject", "idx": [rng.randrange(1 << 20) for _ in range(rng.choice([1, 1, 2, 3, 5, 8]))]}
+    if r < 0.55:
+        return {"kind": rng.choice(["even", "odd"])}
+    if r < 0.8:
+        return {"kind": "nosym", "name": rng.choice(["+", "1", "0", "c0", "c1", "f0", "f1", "var0", "2", "neg"])}
+    return {"kind": "shallow", "depth": rng.choice([1, 2, 2, 3])}
 
 
 # --------------------------------------------------------------------------- building with the implementation
@@ -673,3 +729,147 @@ def run_u(case, M, tier="quick"):
     if sorted(show(of_prog(p)) for p in en.deleted) != sorted(show(wire.unprog(p)) for p in mdeleted):
         corr.append(("deleted set differs from the model", ""))
     return out
+
+
+# --------------------------------------------------------------------------- shared oracles
+def run_case(case, M, tier="quick"):
+    return run_det(case, M, tier) if case["family"] == "det" else run_u(case, M, tier)
+
+
+FINDING_IDS = {"C02": {"start-heap": "C02-F2", "stateful": "C02-F3"}, "C03": {"start-heap": "C03-F1", "stateful": "C03-F2"},
+               "C12": {"start-heap": "C12-F2", "stateful": "C12-F3", "merge": "C12-F1"}}
+
+
+def finding_of(case, r, pid="C02"):
+    """decidable classifiers of the open findings (functions of the case / its grammar / which
+    start_query the implementation has — never of the enumerator's output)"""
+    if case["family"] == "det":
+        return FINDING_IDS[pid]["stateful"] if r.get("stateful") else None
+    if not r.get("fixed") and (r.get("nstarts", 1) >= 2 or case["enum"]["kind"] == "bucket"):
+        return FINDING_IDS[pid]["start-heap"]
+    return None
+
+
+def bucket_index(size, w):
+    """Bucket.add_prob_uniform: 'add 1 in the relevant bucket assuming buckets are linearly
+    distributed': index = size - int(w * size) - 1"""
+    i = size - int(w * size) - 1
+    return i if i >= 0 else i + size
+
+
+def bucket_of_det(g, weights, size, t):
+    """bucket tuple of a program: one count per rule of its derivation (state threaded left to right)"""
+    b = [0] * size
+
+    def go(t, S):
+        P, kids = t
+        args, st = g.rules[S][P]
+        b[bucket_index(size, weights[S][P])] += 1
+        for a, k in zip(args, kids):
+            st = go(k, (a[0], (a[1], st)))
+        return st
+    go(t, g.start)
+    return tuple(b)
+
+
+def bucket_of_u(g, weights, start_w, size, t, S):
+    b = [0] * size
+
+    def go(t, S):
+        P, kids = t
+        for v in g.rules[S][P]:
+            if len(v) == len(kids) and all(derivable_u(g, k, a) for k, a in zip(kids, v)):
+                b[bucket_index(size, weights[S][P][tuple(v)])] += 1
+                for k, a in zip(kids, v):
+                    go(k, a)
+                return
+        raise KeyError(show(t))
+    go(t, S)
+    b[bucket_index(size, start_w[S])] += 1
+    return tuple(b)
+
+
+def derivable_u(g, t, S, memo={}):
+    P, kids = t
+    if S not in g.rules or P not in g.rules[S]:
+        return False
+    return any(len(v) == len(kids) and all(derivable_u(g, k, a) for k, a in zip(kids, v)) for v in g.rules[S][P])
+
+
+def base_tags(case, r):
+    tags = [case["family"], case["build"]["kind"], "enum:" + case["enum"]["kind"], "weights:" + r.get("wmode", "?"), "order:" + case["order"]]
+    if case["enum"].get("threshold", "0") != "0":
+        tags.append("threshold")
+    n = len(r["lang"])
+    tags.append("lang<10" if n < 10 else "lang<100" if n < 100 else "lang<1000" if n < 1000 else "lang>=1000")
+    if case["family"] == "u":
+        tags.append(f"starts:{min(r['nstarts'], 4)}")
+        tags.append("impl:fixed-start-heap" if r.get("fixed") else "impl:start-heap-as-is")
+    elif r.get("stateful"):
+        tags.append("stateful-ttcfg(C02-F3 region)")
+    return tags
+
+
+def key_of(case):
+    import json
+    return json.dumps(case, sort_keys=True)
+
+
+def sample_of(case, r):
+    ys = [show(p) for p in flat(r["steps"])]
+    return {"family": case["family"], "grammar": case["build"]["kind"], "enumerator": case["enum"], "weights": r.get("wmode"), "order": case["order"],
+            "language_size": len(r["lang"]), "yielded": len(ys), "first": ys[:5], "filter": case.get("filter"), "merges": case.get("merges")}
+
+
+def ntie_groups(lang):
+    c = {}
+    for _, w in lang:
+        c[w] = c.get(w, 0) + 1
+    return sum(1 for v in c.values() if v > 1), len(c)
+
+
+def shrink_case(case):
+    """smaller cases: drop merges / filter, simpler enumerator, fewer primitives, smaller bounds"""
+    import copy
+    if case.get("merges"):
+        for j in range(len(case["merges"])):
+            c = copy.deepcopy(case)
+            del c["merges"][j]
+            yield c
+    if case.get("filter"):
+        c = copy.deepcopy(case)
+        c["filter"] = None
+        yield c
+    b = case["build"]
+    if b["src"] == "prims":
+        for j in range(len(b["prims"])):
+            c = copy.deepcopy(case)
+            del c["build"]["prims"][j]
+            names = {n for n, _ in c["build"]["prims"]}
+            c["build"]["forbidden"] = [[a, k, [x for x in v if x in names]] for a, k, v in b.get("forbidden", []) if a in names]
+            yield c
+        if b.get("forbidden"):
+            c = copy.deepcopy(case)
+            c["build"]["forbidden"] = []
+            yield c
+    for fld in ("max_depth", "max_size"):
+        if b.get(fld, 0) > 1:
+            c = copy.deepcopy(case)
+            c["build"][fld] -= 1
+            yield c
+    if b.get("nconstraints", 0) > 0:
+        c = copy.deepcopy(case)
+        c["build"]["nconstraints"] -= 1
+        yield c
+    if case["order"] != "built":
+        c = copy.deepcopy(case)
+        c["order"] = "built"
+        yield c
+    if case["weights"] != "uniform":
+        c = copy.deepcopy(case)
+        c["weights"] = "uniform"
+        yield c
+    if case["enum"].get("threshold", "0") != "0":
+        c = copy.deepcopy(case)
+        c["enum"]["threshold"] = "0"
+        yield c
